@@ -168,8 +168,12 @@ type result struct {
 	matched bool
 }
 
-func work(j job) result {
-	var res result
+func work(j job) (res result) {
+	defer func() {
+		if r := recover(); r != nil {
+			res.fs = append(res.fs, explore.ClauseFail{Clause: "no-panic", Sig: fmt.Sprintf("panic:%s:%v", j.kind, r), Msg: fmt.Sprintf("%s on a tree holding %q queried with %q panicked: %v", j.kind, j.stored, j.q, r)})
+		}
+	}()
 	if j.kind == "match" {
 		res.fs = checkMatch(j.stored, j.q, j.same)
 	} else {
